@@ -358,6 +358,10 @@ func runC18(c *core.Ctx) {
 	// Close may itself wait for a stalled sender)
 	c.Rule("R9", "Shutdown cancels the bootstrap context before it closes channels (shared with C13-R1)", 1)
 	importObligations(c, runC13, "R9", func(o *core.Obligation) bool { return strings.Contains(o.Key, "Shutdown/cancel-first") })
+	// a failed sender releases the flag before it closes: otherwise its own Close waits for it and the cancel that
+	// frees blocked writers is never reached
+	c.Rule("R11", "the sender's recover path releases the flag before closing (shared with C02-R3)", 1)
+	importObligations(c, runC02, "R11", func(o *core.Obligation) bool { return o.Rule == "R3" })
 	// an accepted write returns without waiting for the transport because the sender runs elsewhere
 	c.Rule("R10", "every Executor of the library starts its action on another goroutine and never calls it in Exec's own frame", 1)
 	ruleExecutorsAreAsync(c, e, "R10")
